@@ -93,7 +93,9 @@ func c08Run(in c08In) c08Out {
 		case "refusing":
 			n.Up = false
 		case "timeout":
-			w.Faults = append(w.Faults, &vk.Fault{Host: h, Kind: "SShowReplica", Nth: 0, Action: "hang"})
+			for p := 0; p < max(in.Passes, 1); p++ { // black-holed in every pass
+				w.Faults = append(w.Faults, &vk.Fault{Host: h, Kind: "SShowReplica", Nth: 0, Action: "hang"})
+			}
 		case "semi_err":
 			w.Faults = append(w.Faults, &vk.Fault{Host: h, Kind: "SSemiStatus", Nth: 0, Action: "err:1105"})
 		case "status_err":
@@ -360,6 +362,11 @@ func TestVerifC08(t *testing.T) {
 		}
 		if in.LocalFault == "ro:hang" || in.LocalFault == "ping:err" || in.LocalFault == "isro:err" || in.LocalFault == "" {
 			in.LocalFault = []string{"semidisable:err", "offline:err", "ack:err", "ro:err:1290", "ro:drop"}[o.Rng.Intn(5)]
+		}
+		if o.Rng.Intn(3) == 0 {
+			// a replica that stays unreachable (black-holed in every pass) with the loss clock already older than the delay:
+			// the postponement is over, a failed fence attempt is retried in the next pass, not after another delay
+			in.Conds[0], in.LostAgo = "timeout", 100
 		}
 		if in.LocalMaster && o.Rng.Intn(2) == 0 {
 			in.Stuck, in.Unkillable = 1+o.Rng.Intn(2), true
